@@ -17,6 +17,10 @@ a parameter), `Model/HydroStep.lean` (one step of the whole grid), at `ℝ`.
 * `limiter_bounds`, `limiter_within_neighbours`, `limiter_overshoots_local_extremum`, `limit_between`,
   `face_density_pressure_nonneg`, `predict_nonneg`, `predict_needs_clamp` — the reconstruction
 * `totals_conserved_periodic_code` — with the concrete slope limiter and prediction
+* `limiter_premise_holds`, `step_resets_accumulators`, `totals_conserved_run` — hypotheses that hold by
+  construction; any number of steps
+* `inflow_boundary_is_free`, `outflow_boundary_blocks_inflow` — the other boundary conditions
+* `cfl_does_not_keep_mass_nonneg`, `code_timestep_allows_it` — counterexample: flat cells
 -/
 namespace CMacVerif.C04
 open CMacVerif CMacVerif.RiemannVacuum CMacVerif.HydroGraph CMacVerif.HydroSweeps
@@ -468,6 +472,227 @@ theorem totals_conserved_periodic_code (L : Layout) (c : Cells)
     total cells (fun x => (s' x).cons.e) = total cells (fun x => (s x).cons.e) :=
   totals_conserved_periodic L c hc hp flux pr (codeLimiter pr) (codePredict pr) s h0 hclamp
 
+/-! ## Hypotheses that hold by construction -/
+
+/-- **limiter_premise_holds.**  The premise `lo ≤ hi` of `limiter_bounds` need not be assumed:
+after the gradient sweeps of any layout, in every cell of the grid and for all five variables the
+neighbour minimum is at most the neighbour maximum — whatever the limiter arrays contained before
+(every cell is the left cell of a pair call or of a boundary call along `x`, and one call sets
+`lo ← min(lo, W)`, `hi ← max(hi, W)` with the same neighbour value `W`). -/
+theorem limiter_premise_holds (L : Layout) (c : Cells) (hc : 0 < c.cx ∧ 0 < c.cy ∧ 0 < c.cz)
+    (pr : Params ℝ) (s : Grid (HV ℝ)) (x : Cell) (hx : valid (cellGrid L c) x = true) :
+    LoHi (runOps (gradPhys pr) s (layoutOps L c) x) :=
+  loHi_runOps pr _ s x (Or.inr (valid_cell_touched L c hc hx))
+
+/-- **step_resets_accumulators.**  A hydro step leaves every cell with zero pending changes
+`delta_conserved`, zero energy source term and the gravitational acceleration it had: the state
+after a step satisfies the start-of-step hypotheses of `totals_conserved` again. -/
+theorem step_resets_accumulators (flux : FluxFn ℝ) (pr : Params ℝ) (limiter : HV ℝ → Grad ℝ)
+    (predict : HV ℝ → Q ℝ) (gradOps fluxOps : List Op) (s : Grid (HV ℝ)) (x : Cell) :
+    (hydroStep flux pr limiter predict gradOps fluxOps s x).dcons = ⟨0, ⟨0, 0, 0⟩, 0⟩ ∧
+      (hydroStep flux pr limiter predict gradOps fluxOps s x).eterm = 0 ∧
+      (hydroStep flux pr limiter predict gradOps fluxOps s x).acc = (s x).acc := by
+  obtain ⟨_, f2, _⟩ := hydroStepFlux_fields flux pr limiter predict gradOps fluxOps s x
+  obtain ⟨r1, r2, r3, _⟩ := updateConserved_resets pr.dmax
+    (hydroStepFlux flux pr limiter predict gradOps fluxOps s x) pr.dt
+  simp only [hydroStep, mapCells]
+  exact ⟨r1, r2, r3.trans f2⟩
+
+/-- a run of several steps (one `Params` per step: the time step changes), same calls every step -/
+noncomputable def runSteps (flux : FluxFn ℝ) (limiter : Params ℝ → HV ℝ → Grad ℝ)
+    (predict : Params ℝ → HV ℝ → Q ℝ) (ops : List Op) : List (Params ℝ) → Grid (HV ℝ) → Grid (HV ℝ)
+  | [], s => s
+  | pr :: prs, s => runSteps flux limiter predict ops prs
+      (hydroStep flux pr (limiter pr) (predict pr) ops ops s)
+
+/-- no positivity clamp fires in any step of the run -/
+def NoClamp (flux : FluxFn ℝ) (limiter : Params ℝ → HV ℝ → Grad ℝ)
+    (predict : Params ℝ → HV ℝ → Q ℝ) (ops : List Op) (cells : List Cell) :
+    List (Params ℝ) → Grid (HV ℝ) → Prop
+  | [], _ => True
+  | pr :: prs, s =>
+    (∀ x ∈ cells, (updateConservedTag pr.dmax
+      (hydroStepFlux flux pr (limiter pr) (predict pr) ops ops s x) pr.dt).2 = 0) ∧
+    NoClamp flux limiter predict ops cells prs (hydroStep flux pr (limiter pr) (predict pr) ops ops s)
+
+/-- **totals_conserved_run.**  Any number of steps with any time steps: the totals after the run
+equal the totals before it, as long as no clamp fires.  The start-of-step hypothesis (no pending
+changes, no gravity, no source term) is only needed for the FIRST step — every step re-establishes
+it (`step_resets_accumulators`). -/
+theorem totals_conserved_run (flux : FluxFn ℝ) (limiter : Params ℝ → HV ℝ → Grad ℝ)
+    (predict : Params ℝ → HV ℝ → Q ℝ) (ops : List Op) (cells : List Cell) (hn : cells.Nodup)
+    (hper : ∀ op ∈ ops, ∃ ax l r, op = .pair ax l r ∧ l ∈ cells ∧ r ∈ cells)
+    {φ : Q ℝ → ℝ} (hφ : Lin φ) (prs : List (Params ℝ)) (s : Grid (HV ℝ))
+    (h0 : ∀ x ∈ cells, (s x).dcons = ⟨0, ⟨0, 0, 0⟩, 0⟩ ∧ (s x).acc = ⟨0, 0, 0⟩ ∧ (s x).eterm = 0)
+    (hclamp : NoClamp flux limiter predict ops cells prs s) :
+    total cells (fun x => φ (runSteps flux limiter predict ops prs s x).cons)
+      = total cells (fun x => φ (s x).cons) := by
+  induction prs generalizing s with
+  | nil => rfl
+  | cons pr prs ih =>
+    obtain ⟨hc1, hc2⟩ := hclamp
+    have h0' : ∀ x ∈ cells,
+        (hydroStep flux pr (limiter pr) (predict pr) ops ops s x).dcons = ⟨0, ⟨0, 0, 0⟩, 0⟩ ∧
+        (hydroStep flux pr (limiter pr) (predict pr) ops ops s x).acc = ⟨0, 0, 0⟩ ∧
+        (hydroStep flux pr (limiter pr) (predict pr) ops ops s x).eterm = 0 := by
+      intro x hx
+      obtain ⟨a, b, c⟩ := step_resets_accumulators flux pr (limiter pr) (predict pr) ops ops s x
+      exact ⟨a, c.trans (h0 x hx).2.1, b⟩
+    show total cells (fun x => φ (runSteps flux limiter predict ops prs
+      (hydroStep flux pr (limiter pr) (predict pr) ops ops s) x).cons) = _
+    rw [ih _ h0' hc2]
+    exact totals_conserved flux pr (limiter pr) (predict pr) ops ops cells s hn hper h0 hc1 hφ
+
+/-! ## Inflow and outflow boundaries -/
+
+/-- **inflow_boundary_is_free.**  At an inflow boundary — and at an outflow boundary when the gas
+of the cell moves out of the box — the ghost cell is a copy of the cell: both states handed to the
+Riemann solver are the cell-centred state whatever the gradients, so the boundary flux is the flux
+of two identical states (for HLLC the analytic Euler flux, C05 `hllc_identical`). -/
+theorem inflow_boundary_is_free (i : Axis) (s : ℝ) (W g : Q ℝ) (dx : ℝ) (hd : 0 ≤ W.d)
+    (hp : 0 ≤ W.e) :
+    (reconstruct 0 W g (ghostFluxRight .inflow i s W g).1 (ghostFluxRight .inflow i s W g).2 dx
+        = ⟨W.d, W.v, W.e, W.d, W.v, W.e⟩) ∧
+    (0 ≤ s * V3'.get W.v i →
+      reconstruct 0 W g (ghostFluxRight .outflow i s W g).1 (ghostFluxRight .outflow i s W g).2 dx
+        = ⟨W.d, W.v, W.e, W.d, W.v, W.e⟩) :=
+  ⟨inflow_states i s W g dx hd hp, fun h => outflow_states_outgoing i s W g dx hd hp h⟩
+
+/-- **outflow_boundary_blocks_inflow.**  At an outflow boundary with gas moving INTO the box the
+ghost state has the same density, pressure and tangential velocities and exactly the reversed
+cell-centred normal velocity; the cell side carries its reconstructed normal velocity.  (Only when
+that equals the cell value — e.g. zero gradient — are the two states mirror images and the face
+closed like a reflecting wall; in general a small flux remains: the code does not guarantee more.) -/
+theorem outflow_boundary_blocks_inflow (i : Axis) (s : ℝ) (W g : Q ℝ) (dx : ℝ) (hd : 0 ≤ W.d)
+    (hp : 0 ≤ W.e) (hin : s * V3'.get W.v i < 0) :
+    let r := ghostFluxRight .outflow i s W g
+    let rc := reconstruct 0 W g r.1 r.2 dx
+    rc.rhoL = W.d ∧ rc.rhoR = W.d ∧ rc.PL = W.e ∧ rc.PR = W.e ∧
+      V3'.get rc.vR i = -(V3'.get W.v i) ∧
+      (∀ j, j ≠ i → V3'.get rc.vR j = V3'.get W.v j ∧ V3'.get rc.vL j = V3'.get W.v j) :=
+  outflow_states_incoming i s W g dx hd hp hin
+
+/-- the reflective case of the general boundary functions is the function the wall theorem is about -/
+theorem boundary_reflective_case (flux : FluxFn ℝ) (tiny g : ℝ) (i : Axis) (L : HV ℝ) (dx A dt : ℝ) :
+    ghostFaceFluxB .reflective flux tiny g i L dx A dt = ghostFaceFlux flux tiny g i L dx A dt := rfl
+
+/-! ## The time step restriction does not keep the masses non-negative -/
+
+/-- the uniform gas of the counterexample: `ρ = 1`, `P = 3/5` (sound speed 1 for `γ = 5/3`), moving
+along `+z` at half the sound speed, in a cell of height `ε` and unit base area -/
+noncomputable def flatCell (ε : ℝ) : HV ℝ :=
+  { prim := ⟨1, ⟨0, 0, 1 / 2⟩, 3 / 5⟩, grad := Grad.zero, lo := ⟨0, ⟨0, 0, 0⟩, 0⟩, hi := ⟨0, ⟨0, 0, 0⟩, 0⟩,
+    cons := ⟨ε, ⟨0, 0, ε / 2⟩, 41 / 40 * ε⟩, dcons := ⟨0, ⟨0, 0, 0⟩, 0⟩, acc := ⟨0, 0, 0⟩, eterm := 0 }
+
+theorem flat_raw (ε dx : ℝ) :
+    (rawFlux (hllcFlux (5 / 3)) (reconstruct 0 (flatCell ε).prim ((flatCell ε).grad.along .z)
+      (flatCell ε).prim ((flatCell ε).grad.along .z) dx) (unitNormal .z 1.0) 1).d = 1 / 2 ∧
+    (rawFlux (hllcFlux (5 / 3)) (reconstruct 0 (flatCell ε).prim ((flatCell ε).grad.along .z)
+      (flatCell ε).prim ((flatCell ε).grad.along .z) dx) (unitNormal .z 1.0) 1).e = 13 / 16 := by
+  have hid := C05.hllc_identical (5 / 3) 1 (3 / 5) ⟨0, 0, 1 / 2⟩ (unitNormal .z 1.0) V3.zero
+    (by norm_num) (by norm_num)
+  have hG : effGamma (5 / 3 : ℝ) = 5 / 3 := effGamma_eq _ (by norm_num)
+  rw [reconstruct_copy _ _ _ _ (by norm_num [flatCell]) (by norm_num [flatCell])]
+  simp only [rawFlux, hllcFlux, flatCell]
+  obtain ⟨hm, _, he⟩ := hid
+  rw [hm, he]
+  simp only [C05.eulerFlux, Flux.boost, hG, unitNormal, V3'.set, V3.zero, V3.sub, V3.dot, V3.norm2,
+    V3.smul, V3.add, lit0, lit1]
+  constructor <;> norm_num
+
+theorem flat_fac (ε dt : ℝ) (pv : V3 ℝ) (hε : 0 < ε) (hdt : 8 * ε ≤ dt) :
+    (fluxFac (5 / 3) fluxLimiter (1 / 2) pv (13 / 16) dt (flatCell ε) (flatCell ε)).1
+      = 41 / 20 * ε / (13 / 16 * dt) := by
+  have h2 : (fluxLimiter : ℝ) = 2 := by unfold fluxLimiter; norm_num
+  have hdt0 : 0 < dt := by linarith
+  have c1 : 2 * ε < 1 / 2 * dt := by linarith
+  have c2 : ¬ (2 * ε < -(1 / 2 * dt)) := by intro h; linarith
+  have c3 : 2 * (41 / 40 * ε) < 13 / 16 * dt := by linarith
+  have c4 : ¬ (2 * (41 / 40 * ε) < -(13 / 16 * dt)) := by intro h; linarith
+  have c5 : ¬ ((5 / 3 : ℝ) * (ε * ε) * (3 / 5) < (0 * 0 + 0 * 0 + ε / 2 * (ε / 2)) * 1) := by
+    intro h; nlinarith [mul_pos hε hε]
+  have hg : (1.0 : ℝ) < 5 / 3 := by norm_num
+  simp only [fluxFac, flatCell, h2, V3.norm2, c1, c2, c3, c4, c5, hg, decide_true, decide_false,
+    Bool.and_true, Bool.false_and, Bool.true_and, if_true, if_false, Bool.false_eq_true, amin_real]
+  rw [min_eq_right]
+  · ring
+  · rw [div_le_div_iff₀ (by positivity) (by positivity)]
+    nlinarith [mul_pos hε hdt0]
+
+/-- **cfl_does_not_keep_mass_nonneg.**  A machine-checked counterexample to "the time step
+restriction keeps the masses non-negative": uniform gas (`ρ = 1`, `P = 3/5`, sound speed 1,
+`γ = 5/3`) moves at Mach ½ away from a reflecting wall; the cell at the wall has unit base area and
+height `ε`, its neighbour above is identical.  For every time step `dt ≥ 8 ε` the wall face lets no
+mass through, the upper face removes — after the flux limiter, here its energy condition — 82/65
+of the cell's mass, so the updated mass is `−17/65 ε < 0` and the positivity clamp resets it to 0
+(mass is created).  The code's own time step admits such a `dt` for flat cells because
+`get_timestep` only knows the cell VOLUME (`code_timestep_allows_it`). -/
+theorem cfl_does_not_keep_mass_nonneg (ε dt dmax : ℝ) (hε : 0 < ε) (hdt : 8 * ε ≤ dt) :
+    let L := flatCell ε
+    let top := faceFlux (hllcFlux (5 / 3)) 0 (5 / 3) .z L L ε 1 dt
+    let bot := ghostFaceFlux (hllcFlux (5 / 3)) 0 (5 / 3) .z L (-ε) 1 dt
+    let L' : HV ℝ := { L with dcons := (L.dcons.sub top).sub bot }
+    bot.d = 0 ∧ L'.cons.d + L'.dcons.d * dt = -(17 / 65) * ε ∧
+      (updateConservedTag dmax L' dt).2 % 2 = 1 ∧ (updateConserved dmax L' dt).cons.d = 0 := by
+  intro L top bot L'
+  have hdt0 : 0 < dt := by linarith
+  -- the wall face: receding gas, nothing passes
+  have hbot : bot.d = 0 := by
+    refine (reflective_no_mass_energy (5 / 3) .z L (-ε) 1 dt (by norm_num [L, flatCell])
+      (by norm_num [L, flatCell]) ?_).1
+    have ho : orientation (-ε) = -1 := by
+      unfold orientation; rw [lit0, if_pos (by linarith)]; norm_num
+    have hs : 0 ≤ C05.sound (5 / 3) L.prim.d L.prim.e := Real.sqrt_nonneg _
+    rw [ho]
+    simp only [L, flatCell, reconstruct, reflectiveRight, Grad.along, Grad.zero, V3'.get, V3'.set,
+      V3.zero, lit0, mul_zero, add_zero, limit_own_value]
+    have : (0 : ℝ) ≤ 3 / 2 * C05.sound (5 / 3) 1 (3 / 5) := by
+      have := hs; simp only [L, flatCell] at this; linarith
+    linarith
+  -- the upper face: half the mass flux of the uniform state times the limiter factor
+  have htop : top.d = 1 / 2 * (41 / 20 * ε / (13 / 16 * dt)) := by
+    obtain ⟨hd, he⟩ := flat_raw ε ε
+    simp only [top, faceFlux, faceFluxTag, scaleFlux, L]
+    rw [hd, he, flat_fac ε dt _ hε hdt]
+  have hm : L'.cons.d + L'.dcons.d * dt = -(17 / 65) * ε := by
+    simp only [L', L, flatCell, Q.sub]
+    rw [hbot, htop]
+    field_simp
+    ring
+  refine ⟨hbot, hm, ?_, ?_⟩
+  · have hneg : L'.cons.d + L'.dcons.d * dt < 0 := by rw [hm]; nlinarith
+    simp only [updateConservedTag, lit0, if_pos hneg]
+    split_ifs <;> omega
+  · have hneg : L'.cons.d + L'.dcons.d * dt < 0 := by rw [hm]; nlinarith
+    simp only [updateConserved, updateConservedTag, amax, lit0, if_pos hneg]
+
+/-- the time step the code computes for that cell with `ε = 1/4000` (`Hydro::get_timestep` times
+the default CFL factor 0.2) is at least `16 ε`: even after the time line has rounded it down to a
+power-of-two fraction (at most a factor 2) it is above the `8 ε` of the counterexample -/
+theorem code_timestep_allows_it :
+    16 * (1 / 4000 : ℝ) ≤ 0.2 * getTimestep (5 / 3) 0 0 0.3183098861837907 (1 / 3)
+      (flatCell (1 / 4000)).prim (1 / 4000) := by
+  have hcs : cellSoundSpeed (5 / 3 : ℝ) 0 0 (flatCell (1 / 4000)).prim = 1 := by
+    simp only [cellSoundSpeed, flatCell, invOverflows, lit0, lit1]
+    norm_num
+  have hv : ArithFns.sqrt ((flatCell (1 / 4000)).prim.v.norm2 : ℝ) = 1 / 2 := by
+    simp only [flatCell, V3.norm2]
+    show Real.sqrt _ = _
+    rw [show (0 * 0 + 0 * 0 + 1 / 2 * (1 / 2) : ℝ) = (1 / 2) ^ 2 by norm_num,
+      Real.sqrt_sq (by norm_num)]
+  have hR : (3 / 100 : ℝ) ≤ ArithFns.pow (0.75 * (1 / 4000) * 0.3183098861837907 : ℝ) (1 / 3) := by
+    show (3 / 100 : ℝ) ≤ Real.rpow _ _
+    have h3 : ((3 / 100 : ℝ) ^ (3 : ℕ)) ^ ((3 : ℕ) : ℝ)⁻¹ = 3 / 100 :=
+      Real.pow_rpow_inv_natCast (by norm_num) (by norm_num)
+    rw [← h3]
+    have : ((3 : ℕ) : ℝ)⁻¹ = (1 / 3 : ℝ) := by norm_num
+    rw [this]
+    exact Real.rpow_le_rpow (by norm_num) (by norm_num) (by norm_num)
+  simp only [getTimestep, hcs, hv]
+  generalize ArithFns.pow (0.75 * (1 / 4000) * 0.3183098861837907 : ℝ) (1 / 3) = R at hR ⊢
+  have e : (0.2 : ℝ) * (R / (1 + 1 / 2)) = R * (2 / 15) := by norm_num; ring
+  rw [e]
+  linarith
 /-! ## Physical states -/
 
 /-- **nonneg_after_step.**  After the conserved update every mass and energy is ≥ 0, after the
